@@ -2,6 +2,7 @@ package main
 
 import (
 	"fmt"
+	"sort"
 	"go/types"
 
 	"golang.org/x/tools/go/ssa"
@@ -72,9 +73,12 @@ type State struct {
 	steps   int
 	uncertain bool // a feasibility query on this path was inconclusive
 	choices []string // log of concrete choices (vChoice etc.)
-	locks   map[*Object]int
+	locks   map[lockKey]int
 	trace   []string
 	finalized bool
+	thread    int     // logical thread (1-based) inside vParallel, 0 outside
+	sharedMax int     // objects with id <= sharedMax existed before the parallel section
+	accesses  *access // persistent list of recorded accesses
 	expectPanic string // set by vExpectPanic: a Go panic is the required outcome of this path
 	names   map[string]int // per-path counters for repeated input names (immutable, copied on write)
 }
@@ -208,13 +212,13 @@ func computeIPDom(fn *ssa.Function) []int {
 
 func (e *Engine) newState() *State {
 	e.stateSeq++
-	return &State{id: e.stateSeq, mem: map[*Object]*cellBlock{}, locks: map[*Object]int{}}
+	return &State{id: e.stateSeq, mem: map[*Object]*cellBlock{}, locks: map[lockKey]int{}}
 }
 
 func (e *Engine) clone(st *State) *State {
 	e.stateSeq++
 	n := &State{id: e.stateSeq, mem: make(map[*Object]*cellBlock, len(st.mem)), status: st.status,
-		model: st.model, atEntry: st.atEntry, retFrame: st.retFrame, steps: st.steps, uncertain: st.uncertain, fail: st.fail, ret: st.ret, names: st.names, expectPanic: st.expectPanic}
+		model: st.model, atEntry: st.atEntry, retFrame: st.retFrame, steps: st.steps, uncertain: st.uncertain, fail: st.fail, ret: st.ret, names: st.names, expectPanic: st.expectPanic, thread: st.thread, sharedMax: st.sharedMax, accesses: st.accesses}
 	for k, v := range st.mem {
 		n.mem[k] = v
 	}
@@ -235,7 +239,7 @@ func (e *Engine) clone(st *State) *State {
 		}
 		n.frames[i] = &nf
 	}
-	n.locks = make(map[*Object]int, len(st.locks))
+	n.locks = make(map[lockKey]int, len(st.locks))
 	for k, v := range st.locks {
 		n.locks[k] = v
 	}
@@ -717,4 +721,51 @@ func (e *Engine) tryMerge(a, b *State) (*State, bool) {
 		m.model = b.model
 	}
 	return m, true
+}
+
+// access is one recorded memory access of a logical thread (persistent list).
+type access struct {
+	prev   *access
+	thread int
+	obj    *Object
+	off    *Term
+	n      int
+	write  bool
+	locks  string
+	pos    string
+}
+
+func (e *Engine) record(st *State, o *Object, off *Term, n int, write bool) {
+	if st.thread == 0 || o == nil || o.id > st.sharedMax || o.readonly || e.initDepth > 0 {
+		return
+	}
+	locks := ""
+	if len(st.locks) > 0 {
+		ids := make([]int, 0, len(st.locks))
+		for l := range st.locks {
+			ids = append(ids, l.obj.id<<16+int(l.off))
+		}
+		sort.Ints(ids)
+		locks = fmt.Sprint(ids)
+	}
+	// dedupe identical accesses
+	for a, k := st.accesses, 0; a != nil && k < 64; a, k = a.prev, k+1 {
+		if a.thread == st.thread && a.obj == o && a.off == off && a.n == n && a.write == write && a.locks == locks {
+			return
+		}
+	}
+	pos := ""
+	if len(st.frames) > 0 {
+		f := st.top()
+		if f.ip < len(f.block.Instrs) {
+			pos = e.pos(f.block.Instrs[f.ip])
+		}
+	}
+	st.accesses = &access{prev: st.accesses, thread: st.thread, obj: o, off: off, n: n, write: write, locks: locks, pos: pos}
+}
+
+// lockKey identifies a mutex by its object and (concrete) cell offset.
+type lockKey struct {
+	obj *Object
+	off uint64
 }
